@@ -1,14 +1,317 @@
 import Model.Util
 /-
-  Model/SegTree.lean — (stub) executable model; see DESIGN.md.  Core Lean only.
+  Model/SegTree.lean — executable model of `agilerl.components.segment_tree`
+  (`SegmentTree.__setitem__ / _operate_helper / operate`, `SumSegmentTree.retrieve`,
+  `MinSegmentTree`) and of `agilerl.components.replay_buffer.PrioritizedReplayBuffer`
+  (`add`, `_update_priority`, `update_priorities`, `_sample_proportional`, `_calculate_weights`).
+
+  The tree is the Python list `tree` of length `2 * capacity` (node 1 = root, leaves at
+  `capacity + i`, slot 0 unused).  Loops / recursions of the Python are reproduced step by step;
+  `fuel` arguments only make them structurally recursive (enough fuel is always supplied, which
+  is proved in `Proofs/SegTree*.lean`).
+
+  Not logic, hence parameters: `pw` = `p ↦ p ** alpha`, `f` = `x ↦ x ** (-beta)`, the uniform
+  draws `torch.rand(1).item()`.  Numbers are exact rationals; `+∞` (initial value of the min
+  tree) is `none`.  Core Lean only.
 -/
+namespace SegTree
+
+/-! ### generic array segment tree -/
+section generic
+variable {α : Type}
+
+/-- `tree[n]` (reads outside the list never happen on reachable states; `d` = initial value) -/
+def nd (d : α) (t : List α) (n : Nat) : α := t.getD n d
+
+/-- initial tree: `[init_value for _ in range(2 * capacity)]` -/
+def initTree (cap : Nat) (d : α) : List α := List.replicate (2 * cap) d
+
+/-- the `while idx >= 1:` loop of `__setitem__` -/
+def fixUp (op : α → α → α) (d : α) : Nat → Nat → List α → List α
+  | 0, _, t => t
+  | fuel + 1, idx, t =>
+    if idx ≥ 1 then
+      fixUp op d fuel (idx / 2) (t.set idx (op (nd d t (2 * idx)) (nd d t (2 * idx + 1))))
+    else t
+
+/-- `SegmentTree.__setitem__(idx, val)` -/
+def setItem (op : α → α → α) (d : α) (cap : Nat) (t : List α) (i : Nat) (v : α) : List α :=
+  let p := i + cap
+  fixUp op d p (p / 2) (t.set p v)
+
+/-- `SegmentTree._operate_helper(start, end, node, node_start, node_end)`; `none` = out of fuel -/
+def operateAux (op : α → α → α) (d : α) (t : List α) :
+    Nat → Nat → Nat → Nat → Nat → Nat → Option α
+  | 0, _, _, _, _, _ => none
+  | fuel + 1, s, e, node, ns, ne =>
+    if s = ns ∧ e = ne then some (nd d t node)
+    else
+      let mid := (ns + ne) / 2
+      if e ≤ mid then operateAux op d t fuel s e (2 * node) ns mid
+      else if mid + 1 ≤ s then operateAux op d t fuel s e (2 * node + 1) (mid + 1) ne
+      else
+        match operateAux op d t fuel s mid (2 * node) ns mid,
+              operateAux op d t fuel (mid + 1) e (2 * node + 1) (mid + 1) ne with
+        | some a, some b => some (op a b)
+        | _, _ => none
+
+/-- `SegmentTree.operate(start, end)`: `end <= 0 → end += capacity`, `end -= 1`.
+    Infeasible ranges (`start > end` or `end ≥ capacity`: the Python ends in `RecursionError` /
+    `IndexError`) answer `none`. -/
+def operate (op : α → α → α) (d : α) (cap : Nat) (t : List α) (s e : Nat) : Option α :=
+  let e1 := if e = 0 then e + cap else e
+  let e2 := e1 - 1
+  if s ≤ e2 ∧ e2 < cap then operateAux op d t (cap + 1) s e2 1 0 (cap - 1) else none
+
+end generic
+
+/-- `min` on floats with `+inf` = `none` -/
+def minInf : Option Rat → Option Rat → Option Rat
+  | none, b => b
+  | a, none => a
+  | some a, some b => some (if b < a then b else a)      -- Python `min(a, b)`
+
+/-- the `while idx < self.capacity` loop of `SumSegmentTree.retrieve` -/
+def retrieveLoop (cap : Nat) (t : List Rat) : Nat → Nat → Rat → Nat
+  | 0, idx, _ => idx
+  | fuel + 1, idx, u =>
+    if idx < cap then
+      let left := nd 0 t (2 * idx)
+      if left > u then retrieveLoop cap t fuel (2 * idx) u
+      else retrieveLoop cap t fuel (2 * idx + 1) (u - left)
+    else idx
+
+/-- the walk of `SumSegmentTree.retrieve` without its assertion -/
+def retrieveWalk (cap : Nat) (t : List Rat) (u : Rat) : Nat := retrieveLoop cap t cap 1 u - cap
+
+/-- the float `1e-5` (exact value 5902958103587057 / 2^69): slack of the assertion in `retrieve`
+    and lower clamp of `update_priorities` -/
+def eps : Rat := mkRat 5902958103587057 590295810358705651712
+
+/-- `SumSegmentTree.retrieve(upperbound)`; `none` = the assertion fails -/
+def retrieve (cap : Nat) (t : List Rat) (u : Rat) : Option Nat :=
+  if 0 ≤ u ∧ u ≤ nd 0 t 1 + eps then some (retrieveWalk cap t u) else none
+
+def setSum (cap : Nat) (t : List Rat) (i : Nat) (v : Rat) : List Rat :=
+  setItem (· + ·) 0 cap t i v
+
+def setMin (cap : Nat) (t : List (Option Rat)) (i : Nat) (v : Option Rat) : List (Option Rat) :=
+  setItem minInf none cap t i v
+
+/-! ### PrioritizedReplayBuffer -/
+
+/-- `tree_capacity = 1; while tree_capacity < max_size: tree_capacity *= 2` -/
+def capLoop (m : Nat) : Nat → Nat → Nat
+  | 0, c => c
+  | fuel + 1, c => if c < m then capLoop m fuel (2 * c) else c
+
+def treeCapacity (maxSize : Nat) : Nat := capLoop maxSize maxSize 1
+
+structure PER where
+  maxSize : Nat
+  cap : Nat                       -- capacity of both trees
+  sumT : List Rat
+  minT : List (Option Rat)
+  maxPriority : Rat
+  treePtr : Nat
+  cursor : Nat                    -- `ReplayBuffer._cursor`
+  size : Nat                      -- `len(buffer)`
+deriving Repr, DecidableEq
+
+def PER.new (maxSize : Nat) : PER :=
+  let c := treeCapacity maxSize
+  { maxSize := maxSize, cap := c, sumT := initTree c 0, minT := initTree c none,
+    maxPriority := 1, treePtr := 0, cursor := 0, size := 0 }
+
+def PER.leaf (b : PER) (i : Nat) : Rat := nd 0 b.sumT (b.cap + i)
+def PER.minLeaf (b : PER) (i : Nat) : Option Rat := nd none b.minT (b.cap + i)
+def PER.total (b : PER) : Rat := nd 0 b.sumT 1            -- `sum_tree.sum()` = `tree[1]`
+def PER.minRoot (b : PER) : Option Rat := nd none b.minT 1 -- `min_tree.min()` = `tree[1]`
+
+/-- `_update_priority(idx, priority)` after its assertion `0 <= idx < max_size` -/
+def PER.updatePriority (pw : Rat → Rat) (b : PER) (idx : Nat) (p : Rat) : PER :=
+  { b with sumT := setSum b.cap b.sumT idx (pw p),
+           minT := setMin b.cap b.minT idx (some (pw p)),
+           maxPriority := if b.maxPriority < p then p else b.maxPriority }
+
+/-- one iteration of the loop in `add`: the new transition gets `max_priority` -/
+def PER.addOne (pw : Rat → Rat) (b : PER) : PER :=
+  let b1 := b.updatePriority pw b.treePtr b.maxPriority
+  { b1 with treePtr := (b.treePtr + 1) % b.maxSize }
+
+def PER.addLoop (pw : Rat → Rat) : Nat → PER → PER
+  | 0, b => b
+  | n + 1, b => PER.addLoop pw n (b.addOne pw)
+
+/-- `PrioritizedReplayBuffer.add` of a batch of `n` transitions (`1 ≤ n ≤ max_size`):
+    `ReplayBuffer.add` moves cursor and size, then the loop writes the priorities -/
+def PER.add (pw : Rat → Rat) (b : PER) (n : Nat) : PER :=
+  let b1 := { b with cursor := (b.cursor + n) % b.maxSize, size := min (b.size + n) b.maxSize }
+  PER.addLoop pw n b1
+
+/-- `priority = max(priority.item(), 1e-5)` -/
+def clampPriority (p : Rat) : Rat := if p < eps then eps else p
+
+/-- `update_priorities(indices, priorities)`: sequential; stops at the first index that fails
+    the assertion of `_update_priority` (the earlier ones stay applied), flag = no assertion failed -/
+def PER.updateMany (pw : Rat → Rat) : PER → List (Int × Rat) → PER × Bool
+  | b, [] => (b, true)
+  | b, (i, p) :: rest =>
+    if 0 ≤ i ∧ i.toNat < b.maxSize then
+      PER.updateMany pw (b.updatePriority pw i.toNat (clampPriority p)) rest
+    else (b, false)
+
+/-- the loop body of `_sample_proportional` for stratum `i`, `i+1`, … with draws `rs` -/
+def strataAux (segment : Rat) : Nat → List Rat → List Rat
+  | _, [] => []
+  | i, r :: rs =>
+    let a := segment * (i : Rat)
+    let b := segment * ((i : Rat) + 1)
+    (r * (b - a) + a) :: strataAux segment (i + 1) rs
+
+/-- the stratified query masses of `_sample_proportional` for draws `rs` (`batch = rs.length`) -/
+def strata (total : Rat) (rs : List Rat) : List Rat :=
+  strataAux (total / (rs.length : Rat)) 0 rs
+
+/-- `_sample_proportional(batch_size)` with explicit draws; `none` = the real code raises
+    (batch size 0, empty buffer, assertion of `retrieve`, index outside the storage) -/
+def PER.sampleIdx (b : PER) (rs : List Rat) : Option (List Nat) :=
+  if rs.length = 0 ∨ b.size = 0 then none
+  else
+    let idxs := (strata b.total rs).map (retrieve b.cap b.sumT)
+    if idxs.all (fun o => match o with | some i => decide (i < b.maxSize) | none => false)
+    then some (idxs.filterMap id) else none
+
+/-- the quantity raised to `-beta` for index `i`: `p_sample * size`, and for the maximum weight:
+    `p_min * size` (first component) -/
+def PER.bases (b : PER) (idxs : List Nat) : Option (Rat × List Rat) :=
+  match b.minRoot with
+  | none => none
+  | some m =>
+    if b.total = 0 then none
+    else some (m / b.total * (b.size : Rat), idxs.map (fun i => b.leaf i / b.total * (b.size : Rat)))
+
+/-- `_calculate_weights(indices, beta)` with `f x = x ** (-beta)` -/
+def PER.weights (f : Rat → Rat) (b : PER) (idxs : List Nat) : Option (List Rat) :=
+  match b.bases idxs with
+  | none => none
+  | some (xm, xs) => if xm = 0 ∨ xs.any (· = 0) ∨ idxs.any (fun i => decide (b.cap ≤ i)) then none
+                     else some (xs.map (fun x => f x / f xm))
+
+def powN (p : Rat) : Nat → Rat
+  | 0 => 1
+  | n + 1 => powN p n * p
+
+/-- `x ** (-beta)` for a natural `beta` -/
+def negPowN (beta : Nat) (x : Rat) : Rat := 1 / powN x beta
+
+end SegTree
+
+/-! ### line protocol -/
 namespace SegTree
 open Util
 
 structure IOState where
-  dummy : Nat := 0
+  per : PER := PER.new 1
+  alpha : Nat := 1
+
+def showInf : Option Rat → String
+  | none => "inf"
+  | some q => showRat q
+
+def parsePairs? : List String → Option (List (Int × Rat))
+  | [] => some []
+  | i :: p :: rest =>
+    match parseInt? i, parseRat? p, parsePairs? rest with
+    | some i, some p, some r => some ((i, p) :: r)
+    | _, _, _ => none
+  | _ => none
+
+def isPow2 (c : Nat) : Bool := c > 0 && (c &&& (c - 1)) == 0
 
 def step (s : IOState) : List String → IOState × String
+  | ["new", m, a] =>
+    match parseNat? m, parseNat? a with
+    | some m, some a => if m = 0 then (s, "bad-op") else ({ per := PER.new m, alpha := a }, "ok")
+    | _, _ => (s, "bad-op")
+  | ["tnew", c] =>                       -- bare `SumSegmentTree(c)` / `MinSegmentTree(c)`
+    match parseNat? c with
+    | some c =>
+      if isPow2 c then
+        ({ s with per := { PER.new c with cap := c, sumT := initTree c 0, minT := initTree c none } }, "ok")
+      else (s, "reject")
+    | none => (s, "bad-op")
+  | ["add", n] =>
+    match parseNat? n with
+    | some n =>
+      if n = 0 ∨ n > s.per.maxSize then (s, "reject")
+      else ({ s with per := s.per.add (powN · s.alpha) n }, "ok")
+    | none => (s, "bad-op")
+  | "update" :: ws =>
+    match parsePairs? ws with
+    | some ps =>
+      let (b, ok) := PER.updateMany (powN · s.alpha) s.per ps
+      ({ s with per := b }, if ok then "ok" else "reject")
+    | none => (s, "bad-op")
+  | "set" :: i :: v :: [] =>             -- `sum_tree[i] = v; min_tree[i] = v`
+    match parseNat? i, parseRat? v with
+    | some i, some v =>
+      if i < s.per.cap then
+        ({ s with per := { s.per with sumT := setSum s.per.cap s.per.sumT i v,
+                                      minT := setMin s.per.cap s.per.minT i (some v) } }, "ok")
+      else (s, "reject")
+    | _, _ => (s, "bad-op")
+  | "sample" :: ws =>
+    match parseRats? ws with
+    | some rs =>
+      match s.per.sampleIdx rs with
+      | some idxs => (s, showNats idxs)
+      | none => (s, "reject")
+    | none => (s, "bad-op")
+  | "weights" :: beta :: ws =>
+    match parseNat? beta, parseNats? ws with
+    | some beta, some idxs =>
+      match s.per.weights (negPowN beta) idxs with
+      | some w => (s, showRats w)
+      | none => (s, "reject")
+    | _, _ => (s, "bad-op")
+  | "bases" :: ws =>
+    match parseNats? ws with
+    | some idxs =>
+      match s.per.bases idxs with
+      | some (xm, xs) => (s, showRats (xm :: xs))
+      | none => (s, "reject")
+    | none => (s, "bad-op")
+  | ["retrieve", u] =>
+    match parseRat? u with
+    | some u =>
+      match retrieve s.per.cap s.per.sumT u with
+      | some i => (s, toString i)
+      | none => (s, "reject")
+    | none => (s, "bad-op")
+  | ["sum", a, b] =>
+    match parseNat? a, parseNat? b with
+    | some a, some b =>
+      match operate (· + ·) 0 s.per.cap s.per.sumT a b with
+      | some v => (s, showRat v)
+      | none => (s, "reject")
+    | _, _ => (s, "bad-op")
+  | ["min", a, b] =>
+    match parseNat? a, parseNat? b with
+    | some a, some b =>
+      match operate minInf none s.per.cap s.per.minT a b with
+      | some v => (s, showInf v)
+      | none => (s, "reject")
+    | _, _ => (s, "bad-op")
+  | ["leaves"] =>
+    let b := s.per
+    (s, showRat b.total ++ " " ++ showInf b.minRoot ++ " | " ++
+        showRats ((List.range b.cap).map b.leaf) ++ " | " ++
+        " ".intercalate ((List.range b.cap).map (fun i => showInf (b.minLeaf i))))
+  | ["state"] =>
+    let b := s.per
+    (s, s!"{b.size} {b.cursor} {b.treePtr} {showRat b.maxPriority} {b.cap}")
+  | ["eps"] => (s, showRat eps)
   | _ => (s, "bad-op")
 
 end SegTree
